@@ -1,14 +1,26 @@
 /-
 C08 — media actions need the matching permission or call membership: property theorems.
+
+The model (`Model/Perm.lean`) is parametrised by a configuration; `codeCfg` is the one read from the
+source tree.  The general theorems hold for every configuration with `cfg.sound` (every decision
+function is the program the model stands for, the revocation goroutine runs both blocks, join replies
+install their permissions like a permissions update, the media server accepts the camera and the
+screen stream type); `C08_code_sound` shows that the current tree is such a configuration, the
+`…_code` theorems restate the results with the statement's own names (`Spec/Perm.lean`).
+
+Quantification: every permission set (any list of permission names, or none at all), every list of
+m-lines, every stream type and message kind are universally quantified arguments of the actions;
+"every order of permission updates, in-call changes and requests" is "every list of actions"
+(`run … acts`), where a permission update (`setPerms`) and its revocation goroutine (`sweep`) are
+separate actions that anything may come between.
 -/
-import SigModel.Spec.Perm
+import SigModel.Lemmas.Perm
 
 namespace SigModel.Perm
 
-/-- The current source tree is a configuration the theorems apply to: every decision function is the
-program the model stands for, the revocation goroutine runs both blocks without an early `return`,
-join replies install their permissions like a permissions update, the media server accepts exactly the
-camera and the screen stream type. -/
+/-! ### the tie to the source -/
+
+/-- The current source tree is a configuration the theorems apply to. -/
 theorem C08_code_sound : codeCfg.sound = true := by decide +kernel
 
 /-- The permission and stream names in the source are the ones of the statement. -/
@@ -16,5 +28,500 @@ theorem C08_code_names :
     codeCfg.permMedia = Spec.publishMedia ∧ codeCfg.permAudio = Spec.publishAudio ∧ codeCfg.permVideo = Spec.publishVideo ∧
     codeCfg.permScreen = Spec.publishScreen ∧ codeCfg.permControl = Spec.control ∧ codeCfg.permTransient = Spec.transientData ∧
     codeCfg.streamScreen = Spec.screen ∧ codeCfg.overrides = [(Spec.hideDisplaynames, false)] := by decide +kernel
+
+theorem codeSound : Sound codeCfg := sound_of codeCfg C08_code_sound
+
+/-- `hasPermissionLocked` is the statement's "holds", for every permission name and every permission set. -/
+theorem hasPerm_code (ps : Option (List String)) (p : String) : hasPerm codeCfg ps p = Spec.holds ps p := by
+  have h := C08_code_names.2.2.2.2.2.2.2
+  unfold hasPerm Spec.holds
+  cases ps with
+  | some l => rfl
+  | none =>
+    simp only [h, List.lookup]
+    cases hp : (p == Spec.hideDisplaynames) <;> simp [hp, bne]
+
+theorem Permitted_code (ps : Option (List String)) (T : String) (m : Media) :
+    Permitted codeCfg ps T m = Spec.mayPublish ps T m := by
+  obtain ⟨h1, h2, h3, h4, _, _, h7, _⟩ := C08_code_names
+  unfold Permitted Spec.mayPublish
+  simp only [hasPerm_code, h1, h2, h3, h4, h7]
+
+theorem MaySignal_code (ps : Option (List String)) (T : String) : MaySignal codeCfg ps T = Spec.maySignal ps T := by
+  obtain ⟨h1, h2, h3, h4, _, _, h7, _⟩ := C08_code_names
+  unfold MaySignal Spec.maySignal
+  simp only [hasPerm_code, h1, h2, h3, h4, h7]
+
+/-! ### C08_publish_needs_permission -/
+
+/-- The decision for an offer is exactly the statement's condition on the m-lines: for every permission
+set, stream type and m-line list, `checkOfferTypeLocked` accepts iff a screen share has `publish-screen`,
+resp. every audio / video m-line is covered by `publish-media` or `publish-audio` / `publish-video`;
+the media types it reports are the kinds of m-lines present. -/
+theorem C08_offer_decision (cfg : Cfg) (h : cfg.sound = true) (ps : Option (List String)) (T : String) (ml : List MLine) :
+    checkOfferType cfg ps T ml =
+      if T == cfg.streamScreen then (if hasPerm cfg ps cfg.permScreen then some { screen := true } else none)
+      else if SdpOK cfg ps ml then some (mlMedia ml {}) else none :=
+  checkOfferType_spec cfg (sound_of cfg h) ps T ml
+
+/-- What the property demands of an event, with the permission set *as last set by the backend*
+(`lastSet`, a function of the history alone). -/
+def PublishOK (cfg : Cfg) (acts : List Act) (st : St) : Ev → Prop
+  | .pubNew s T m => Permitted cfg (lastSet acts s) T m = true
+  | .pubSet s T m => Permitted cfg (lastSet acts s) T m = true
+  | .pubMsg s T k => k = .offer ∨
+      (MaySignal cfg (lastSet acts s) T = true ∧
+       ∃ p ∈ (st.sess s).pubs, p.stream = T ∧ ((st.sess s).sweeps = 0 → Permitted cfg (lastSet acts s) T p.media = true))
+  | .sendofferOk s _ T => MaySignal cfg (lastSet acts s) T = true
+  | _ => True
+
+theorem findPub_some_mem (x : Sess) (T : String) (h : (findPub x T).isSome = true) : ∃ p ∈ x.pubs, p.stream = T := by
+  unfold findPub at h
+  cases hf : x.pubs.find? (fun p => p.stream == T) with
+  | none => simp [hf] at h
+  | some p =>
+    refine ⟨p, List.mem_of_find?_eq_some hf, ?_⟩
+    simpa using List.find?_some hf
+
+/-- **Every created or updated publisher, every message accepted for an own publisher (candidates,
+answers, …) and every `sendoffer` the hub acts on happens in a state where the matching permission
+holds as last set by the backend** — for every history of actions (permission updates, join replies,
+in-call changes, requests, revocation goroutines in any order), every permission set, m-line list,
+stream type and message kind.  An accepted candidate moreover goes to an existing publisher, which
+itself is covered by the permissions unless a revocation goroutine is still to run. -/
+theorem C08_publish_needs_permission (cfg : Cfg) (h : cfg.sound = true) (n : Nat) (ints : List Nat)
+    (acts : List Act) (a : Act) (ev : Ev)
+    (hev : ev ∈ (step cfg (run cfg (St.init n ints) acts) a).2) :
+    PublishOK cfg acts (run cfg (St.init n ints) acts) ev := by
+  have hs := sound_of cfg h
+  have hok := step_ok cfg hs _ a ev hev
+  have hinv := reachable_inv cfg hs _ ⟨n, ints, acts, rfl⟩
+  cases ev <;> simp only [PublishOK]
+  case pubNew s T m =>
+    obtain ⟨hl, hp⟩ := hok
+    rwa [← perms_last_set cfg n ints acts s hl]
+  case pubSet s T m =>
+    obtain ⟨hl, hp⟩ := hok
+    rwa [← perms_last_set cfg n ints acts s hl]
+  case pubMsg s T k =>
+    obtain ⟨hl, hp⟩ := hok
+    rcases hp with hk | ⟨hm, hf⟩
+    · exact Or.inl hk
+    · right
+      rw [← perms_last_set cfg n ints acts s hl]
+      refine ⟨hm, ?_⟩
+      obtain ⟨p, hp, hT⟩ := findPub_some_mem _ _ hf
+      exact ⟨p, hp, hT, fun hz => hT ▸ (hinv s).settled hz p hp⟩
+  case sendofferOk s r T =>
+    obtain ⟨hl, hp⟩ := hok
+    rwa [← perms_last_set cfg n ints acts s hl]
+
+/-- The same for the current source tree, in the statement's own terms. -/
+theorem C08_publish_needs_permission_code (n : Nat) (ints : List Nat) (acts : List Act) (a : Act) (ev : Ev)
+    (hev : ev ∈ (step codeCfg (run codeCfg (St.init n ints) acts) a).2) :
+    match ev with
+    | .pubNew s T m => Spec.mayPublish (lastSet acts s) T m = true
+    | .pubSet s T m => Spec.mayPublish (lastSet acts s) T m = true
+    | .pubMsg s T k => k = .offer ∨ Spec.maySignal (lastSet acts s) T = true
+    | .sendofferOk s _ T => Spec.maySignal (lastSet acts s) T = true
+    | _ => True := by
+  have := C08_publish_needs_permission codeCfg C08_code_sound n ints acts a ev hev
+  cases ev <;> simp only [PublishOK, Permitted_code, MaySignal_code] at this ⊢
+  · exact this
+  · exact this
+  · exact this.imp id (·.1)
+  · exact this
+
+/-- Without the permission the request is refused and nothing changes: an offer whose stream or m-lines
+are not covered gets `not_allowed`, no publisher is created or touched. -/
+theorem C08_offer_refused (cfg : Cfg) (h : cfg.sound = true) (st : St) (s : Nat) (T : String) (ml : List MLine)
+    (hl : (st.sess s).live = true)
+    (hno : (if T == cfg.streamScreen then hasPerm cfg (st.sess s).perms cfg.permScreen else SdpOK cfg (st.sess s).perms ml) = false) :
+    step cfg st (.offer s T ml) = (st, [.reply s "not_allowed"]) := by
+  have hc := C08_offer_decision cfg h (st.sess s).perms T ml
+  simp only [step, offerStep, hl, Bool.not_true, Bool.false_eq_true, ↓reduceIte]
+  split at hno
+  · rename_i hT
+    simp only [hT, ↓reduceIte, hno, Bool.false_eq_true] at hc
+    simp [hc]
+  · rename_i hT
+    simp only [hT, Bool.false_eq_true, ↓reduceIte, hno] at hc
+    simp [hc]
+
+/-- … and a candidate / answer / endOfCandidates for an own stream without a publish permission of its
+class gets `not_allowed` and reaches no publisher. -/
+theorem C08_candidate_refused (cfg : Cfg) (h : cfg.sound = true) (st : St) (s : Nat) (k : Kind) (T : String)
+    (hk : k = .answer ∨ k = .candidate ∨ k = .endOfCandidates) (hl : (st.sess s).live = true)
+    (hno : MaySignal cfg (st.sess s).perms T = false) :
+    step cfg st (.msg s s k T) = (st, [.reply s "not_allowed"]) := by
+  have hs := sound_of cfg h
+  have hne : k ≠ .offer := by rcases hk with rfl | rfl | rfl <;> decide
+  have ha := allowedToSend_maySignal cfg hs (st.sess s).perms T k hne
+  rcases hk with rfl | rfl | rfl <;>
+    simp [step, msgStep, hl, hs.dispatchOk, ha, hno]
+
+/-! ### C08_revocation_closes -/
+
+/-- **After a permissions update no publisher remains whose media exceed the new permissions**: in every
+state reachable by any sequence of actions, a session whose revocation goroutines have all run has only
+publishers covered by its current permissions (which are the ones last set by the backend,
+`C08_perms_last_set`), at most one per stream type. -/
+theorem C08_revocation_closes (cfg : Cfg) (h : cfg.sound = true) (st : St) (hr : Reachable cfg st) (s : Nat)
+    (hq : (st.sess s).sweeps = 0) :
+    (∀ p ∈ (st.sess s).pubs, Permitted cfg (st.sess s).perms p.stream p.media = true) ∧
+    ((st.sess s).pubs.map (·.stream)).Nodup :=
+  ⟨(reachable_inv cfg (sound_of cfg h) st hr s).settled hq, (reachable_inv cfg (sound_of cfg h) st hr s).nodup⟩
+
+/-- The permission set consulted by every check is the one the backend set last (join reply with
+permissions or permissions update, whichever came later) — for every history. -/
+theorem C08_perms_last_set (cfg : Cfg) (n : Nat) (ints : List Nat) (acts : List Act) (s : Nat)
+    (hl : ((run cfg (St.init n ints) acts).sess s).live = true) :
+    ((run cfg (St.init n ints) acts).sess s).perms = lastSet acts s :=
+  perms_last_set cfg n ints acts s hl
+
+/-- The step itself: a permissions update followed by its revocation goroutine leaves only publishers the
+*new* permission set covers — whatever was published before, whatever else is pending. -/
+theorem C08_update_then_sweep (cfg : Cfg) (h : cfg.sound = true) (st : St) (hr : Reachable cfg st) (s : Nat)
+    (p : List String) (hl : (st.sess s).live = true) :
+    let st1 := (step cfg st (.setPerms s p)).1
+    let st2 := (step cfg st1 (.sweep s)).1
+    ∀ q ∈ (st2.sess s).pubs, Permitted cfg (some p) q.stream q.media = true := by
+  intro st1 st2
+  have hs := sound_of cfg h
+  have hinv1 : Inv cfg st1 := step_inv cfg hs st _ (reachable_inv cfg hs st hr)
+  have hsw : (st1.sess s).sweeps ≠ 0 := by
+    simp [st1, step, hl, upd_sess]
+  have hperm : (st2.sess s).perms = some p := by
+    simp [st2, st1, step, sweepStep, hl, upd_sess]
+  have := sweepStep_settles cfg hs st1 s hinv1 hsw
+  intro q hq
+  have h2 := this q hq
+  rwa [show ((sweepStep cfg st1 s).1.sess s).perms = some p from hperm] at h2
+
+/-- The same for the permissions of a join reply (the repaired `processJoinRoom`). -/
+theorem C08_join_then_sweep (cfg : Cfg) (h : cfg.sound = true) (st : St) (hr : Reachable cfg st) (s r : Nat)
+    (p : List String) (hl : (st.sess s).live = true) :
+    let st1 := (step cfg st (.join s r (some p))).1
+    let st2 := (step cfg st1 (.sweep s)).1
+    ∀ q ∈ (st2.sess s).pubs, Permitted cfg (some p) q.stream q.media = true := by
+  intro st1 st2
+  have hs := sound_of cfg h
+  have hinv1 : Inv cfg st1 := step_inv cfg hs st _ (reachable_inv cfg hs st hr)
+  have hfr := step_frame cfg st (.join s r (some p)) s
+  have hst1 : (st1.sess s).sweeps ≠ 0 ∧ (st1.sess s).perms = some p := by
+    simp only [st1, step, joinRoom, hl, Bool.not_true, Bool.false_eq_true, ↓reduceIte]
+    generalize leaveRoom st s = res
+    obtain ⟨st0, ev⟩ := res
+    simp [upd_sess, hs.joinSweeps]
+  have hperm : (st2.sess s).perms = some p := by
+    simp only [st2, step, sweepStep]
+    split
+    · exact hst1.2
+    · simp [upd_sess, hst1.2]
+  have := sweepStep_settles cfg hs st1 s hinv1 hst1.1
+  intro q hq
+  have h2 := this q hq
+  rwa [show ((sweepStep cfg st1 s).1.sess s).perms = some p from hperm] at h2
+
+/-- For the current source tree, in the statement's terms. -/
+theorem C08_revocation_closes_code (st : St) (hr : Reachable codeCfg st) (s : Nat) (hq : (st.sess s).sweeps = 0) :
+    ∀ p ∈ (st.sess s).pubs, Spec.mayPublish (st.sess s).perms p.stream p.media = true := by
+  intro p hp
+  rw [← Permitted_code]
+  exact (C08_revocation_closes codeCfg C08_code_sound st hr s hq).1 p hp
+
+/-! ### C08_subscribe_same_call -/
+
+/-- **`requestoffer` is honoured (the hub asks the media server for a subscriber, existing or new) only if
+the requester is an internal client, or both sessions are in the same room, the requester is in the call
+and the other session exists and is in the call or is an internal client** (or the administrator
+switched the requirement off with `allowsubscribeany`) — in every state. -/
+theorem C08_subscribe_same_call (cfg : Cfg) (h : cfg.sound = true) (st : St) (a : Act) (s p : Nat) (T : String)
+    (hev : Ev.requestOk s p T ∈ (step cfg st a).2) :
+    (st.sess s).live = true ∧ SameCallSpec st s p :=
+  step_ok cfg (sound_of cfg h) st a _ hev
+
+/-- A subscriber is only ever created through an accepted `requestoffer` of its owner or a permitted
+`sendoffer` of the publishing session. -/
+theorem C08_subscriber_origin (cfg : Cfg) (h : cfg.sound = true) (st : St) (a : Act) (s src : Nat) (T : String)
+    (hev : Ev.subNew s src T ∈ (step cfg st a).2) :
+    ((st.sess s).live = true ∧ SameCallSpec st s src) ∨
+    ((st.sess src).live = true ∧ MaySignal cfg (st.sess src).perms T = true) :=
+  step_ok cfg (sound_of cfg h) st a _ hev
+
+/-- Otherwise the request is refused with `not_allowed` and nothing changes. -/
+theorem C08_request_refused (cfg : Cfg) (h : cfg.sound = true) (st : St) (s p : Nat) (T : String)
+    (hl : (st.sess s).live = true) (hne : s ≠ p) (hany : st.allowAny = false) (hno : sameCall cfg st s p = false) :
+    step cfg st (.request s p T) = (st, [.reply s "not_allowed"]) := by
+  have hs := sound_of cfg h
+  simp [step, requestStep, hl, hne, hs.dispatchOk, hany, hno]
+
+/-- `isInSameCall` is exactly the statement's condition. -/
+theorem C08_sameCall_iff (cfg : Cfg) (h : cfg.sound = true) (st : St) (s p : Nat) :
+    sameCall cfg st s p = true ↔
+      ((st.sess s).internal = true ∨
+       ∃ r, (st.sess s).room = some r ∧ (st.sess p).room = some r ∧ (st.sess s).inCall = true ∧
+            (st.sess p).live = true ∧ ((st.sess p).inCall = true ∨ (st.sess p).internal = true)) := by
+  have hs := sound_of cfg h
+  constructor
+  · exact sameCall_spec cfg hs st s p
+  · intro hc
+    unfold sameCall
+    simp only [hs.sameCallOk, hs.incallOk, hs.releaseOk, Bool.not_true, Bool.or_self, Bool.false_eq_true, ↓reduceIte]
+    rcases hc with hi | ⟨r, h1, h2, h3, h4, h5⟩
+    · simp [hi]
+    · cases hi : (st.sess s).internal
+      · simp only [Bool.false_eq_true, ↓reduceIte, h1, h3, h4, h2, Bool.not_true, bne_self_eq_false]
+        rcases h5 with h5 | h5 <;> simp [h5]
+      · simp
+
+/-- "In the call" is meaningful: in every reachable state a session that is in the call is in a room
+(the flag is dropped on leaving, joining another room and closing). -/
+theorem C08_incall_needs_room (cfg : Cfg) (h : cfg.sound = true) (st : St) (hr : Reachable cfg st) (s : Nat)
+    (hc : (st.sess s).inCall = true) : (st.sess s).room.isSome = true :=
+  (reachable_inv cfg (sound_of cfg h) st hr s).incallRoom hc
+
+/-! ### C08_control_transient_gates -/
+
+/-- **Control messages are delivered only for internal clients and sessions with `control`; transient
+data changes (and their events) only come from internal clients and sessions with `transient-data`.** -/
+theorem C08_control_transient_gates (cfg : Cfg) (h : cfg.sound = true) (st : St) (a : Act) :
+    (∀ to frm, Ev.deliver to "ctl" frm ∈ (step cfg st a).2 → (st.sess frm).live = true ∧ MayControl cfg (st.sess frm)) ∧
+    (∀ to what frm, Ev.tev to what frm ∈ (step cfg st a).2 → (st.sess frm).live = true ∧ MayTransient cfg (st.sess frm)) :=
+  ⟨fun _ _ hev => step_ok cfg (sound_of cfg h) st a _ hev rfl, fun _ _ _ hev => step_ok cfg (sound_of cfg h) st a _ hev⟩
+
+/-- Without the permission a control message is dropped: no reply, no delivery, no change. -/
+theorem C08_control_dropped (cfg : Cfg) (h : cfg.sound = true) (st : St) (s : Nat) (rc : Rcpt)
+    (hno : ¬ MayControl cfg (st.sess s)) : step cfg st (.control s rc) = (st, []) := by
+  have hs := sound_of cfg h
+  have : mayControl cfg (st.sess s) = false := by
+    cases hm : mayControl cfg (st.sess s)
+    · rfl
+    · exact absurd ((mayControl_spec cfg hs _).1 hm) hno
+  simp only [step, controlStep, this]
+  split <;> simp
+
+/-- Without the permission a transient `set` / `remove` is refused with `not_allowed` and changes nothing. -/
+theorem C08_transient_refused (cfg : Cfg) (h : cfg.sound = true) (st : St) (s r : Nat) (ta : TAct)
+    (hl : (st.sess s).live = true) (hroom : (st.sess s).room = some r) (hta : ta ≠ .other)
+    (hno : ¬ MayTransient cfg (st.sess s)) : step cfg st (.transient s ta) = (st, [.reply s "not_allowed"]) := by
+  have hs := sound_of cfg h
+  have : mayTransient cfg (st.sess s) = false := by
+    cases hm : mayTransient cfg (st.sess s)
+    · rfl
+    · exact absurd ((mayTransient_spec cfg hs _).1 hm) hno
+  cases ta <;> simp_all [step, transientStep]
+
+/-- The transient data of a room only changes through a permitted write (or is dropped with the room). -/
+theorem C08_store_changes (cfg : Cfg) (h : cfg.sound = true) (st : St) (a : Act) (r : Nat)
+    (hch : (step cfg st a).1.store r ≠ st.store r) :
+    (∃ s ta, a = .transient s ta ∧ (st.sess s).live = true ∧ MayTransient cfg (st.sess s)) ∨
+    (step cfg st a).1.store r = [] := by
+  have hs := sound_of cfg h
+  have hleave : ∀ s, (leaveRoom st s).1.store r ≠ st.store r → (leaveRoom st s).1.store r = [] := by
+    intro s
+    unfold leaveRoom
+    split
+    · simp
+    · unfold dropStoreIfEmpty
+      split
+      · simp only [St.upd]
+        split <;> simp
+      · simp [St.upd]
+  cases a <;> simp only [step] at hch ⊢
+  case join s r' p =>
+    right
+    unfold joinRoom at hch ⊢
+    split at hch
+    · exact absurd rfl hch
+    · rename_i hl
+      simp only [hl, ↓reduceIte]
+      have := hleave s
+      generalize leaveRoom st s = res at this hch
+      obtain ⟨st0, ev⟩ := res
+      exact this hch
+  case leave s => exact Or.inr (hleave s hch)
+  case setPerms s p => split at hch <;> exact absurd rfl hch
+  case sweep s =>
+    unfold sweepStep at hch
+    simp only [] at hch
+    split at hch <;> exact absurd rfl hch
+  case incall s r' f =>
+    unfold incallStep at hch
+    simp only [] at hch
+    repeat' split at hch
+    all_goals exact absurd rfl hch
+  case incallAll r' f =>
+    unfold incallAllStep at hch
+    split at hch <;> exact absurd rfl hch
+  case close s =>
+    right
+    unfold closeStep at hch ⊢
+    split at hch
+    · exact absurd rfl hch
+    · rename_i hl
+      simp only [hl, ↓reduceIte]
+      have := hleave s
+      generalize leaveRoom st s = res at this hch
+      obtain ⟨st0, ev⟩ := res
+      exact this hch
+  case setAllowAny b => exact absurd rfl hch
+  case offer s T ml =>
+    unfold offerStep at hch
+    simp only [] at hch
+    repeat' split at hch
+    all_goals exact absurd rfl hch
+  case msg s r' k T => rw [msgStep_state] at hch; exact absurd rfl hch
+  case request s p T =>
+    unfold requestStep getOrCreateSub at hch
+    simp only [] at hch
+    repeat' split at hch
+    all_goals first
+      | exact absurd rfl hch
+      | (simp_all; done)
+  case sendoffer s r' T =>
+    unfold sendofferStep getOrCreateSub at hch
+    simp only [] at hch
+    repeat' split at hch
+    all_goals first
+      | exact absurd rfl hch
+      | (simp_all; done)
+  case control s rc => rw [controlStep_state] at hch; exact absurd rfl hch
+  case transient s ta =>
+    left
+    refine ⟨s, ta, rfl, ?_⟩
+    unfold transientStep at hch
+    simp only [] at hch
+    cases hl : (st.sess s).live
+    · simp [hl] at hch
+    · simp only [hl, Bool.not_true, Bool.false_eq_true, ↓reduceIte] at hch
+      cases hm : mayTransient cfg (st.sess s)
+      · exfalso
+        simp only [hm, Bool.not_false, ↓reduceIte] at hch
+        repeat' split at hch
+        all_goals exact absurd rfl hch
+      · exact ⟨rfl, (mayTransient_spec cfg hs _).1 hm⟩
+
+/-- For the current source tree, in the statement's terms. -/
+theorem C08_control_transient_gates_code (st : St) (a : Act) :
+    (∀ to frm, Ev.deliver to "ctl" frm ∈ (step codeCfg st a).2 →
+        (st.sess frm).internal = true ∨ Spec.holds (st.sess frm).perms Spec.control = true) ∧
+    (∀ to what frm, Ev.tev to what frm ∈ (step codeCfg st a).2 →
+        (st.sess frm).internal = true ∨ Spec.holds (st.sess frm).perms Spec.transientData = true) := by
+  obtain ⟨h1, h2⟩ := C08_control_transient_gates codeCfg C08_code_sound st a
+  obtain ⟨_, _, _, _, h5, h6, _, _⟩ := C08_code_names
+  refine ⟨fun to frm hev => ?_, fun to what frm hev => ?_⟩
+  · have := (h1 to frm hev).2
+    simpa [MayControl, hasPerm_code, h5] using this
+  · have := (h2 to what frm hev).2
+    simpa [MayTransient, hasPerm_code, h6] using this
+
+
+/-! ### the two defects (repaired in /repo) as proved witnesses, and non-vacuity
+
+`Cfg.repaired` spells out the configuration of the repaired tree; `Cfg.pinned` is the tree as it was
+pinned: both blocks of the revocation goroutine `return` after closing their publisher, and
+`processJoinRoom` only stores the permissions of the join reply. -/
+
+def Cfg.repaired : Cfg :=
+  { permMedia := "publish-media", permAudio := "publish-audio", permVideo := "publish-video", permScreen := "publish-screen"
+    permControl := "control", permTransient := "transient-data", overrides := [("hide-displaynames", false)]
+    streamScreen := "screen", mcuStreams := ["video", "screen"], bitAudio := 1, bitVideo := 2, bitScreen := 4
+    sweep := [{ stream := "video", guard := "publish-media", conds := [(1, "publish-audio"), (2, "publish-video")], early := false },
+              { stream := "screen", guard := "publish-screen", conds := [], early := false }]
+    joinSweeps := true
+    hasPermOk := true, sdpOk := true, sendOk := true, offerTypeOk := true, publisherOk := true, dispatchOk := true
+    sendofferGuarded := true, sameCallOk := true, controlOk := true, transientOk := true, releaseOk := true, incallOk := true }
+
+def Cfg.pinned : Cfg :=
+  { Cfg.repaired with
+    sweep := [{ stream := "video", guard := "publish-media", conds := [(1, "publish-audio"), (2, "publish-video")], early := true },
+              { stream := "screen", guard := "publish-screen", conds := [], early := true }]
+    joinSweeps := false }
+
+/-- The configuration read from the current tree is the repaired one, field by field. -/
+theorem C08_code_is_repaired : codeCfg = Cfg.repaired := by decide +kernel
+
+theorem repaired_sound : Cfg.repaired.sound = true := by decide
+theorem pinned_not_sound : Cfg.pinned.sound = false := by decide
+
+def allPublish : List String := ["publish-media", "publish-audio", "publish-video", "publish-screen"]
+
+/-- DESIGN §6 #5: camera and screen published, all permissions withdrawn, the revocation goroutine has run. -/
+def witnessEarlyReturn : List Act :=
+  [.join 0 1 (some allPublish), .offer 0 "video" [.audio, .video], .offer 0 "screen" [.video], .setPerms 0 [], .sweep 0]
+
+/-- On the pinned tree the screen publisher survives the withdrawal of every permission … -/
+theorem C08_early_return_leaves_screen :
+    ((run Cfg.pinned (St.init 4 [3]) witnessEarlyReturn).sess 0).sweeps = 0 ∧
+    ((run Cfg.pinned (St.init 4 [3]) witnessEarlyReturn).sess 0).perms = some [] ∧
+    ((run Cfg.pinned (St.init 4 [3]) witnessEarlyReturn).sess 0).pubs = [{ stream := "screen", media := { screen := true } }] ∧
+    Permitted Cfg.pinned (some []) "screen" { screen := true } = false := by decide
+
+/-- … on the repaired one nothing is left. -/
+example : ((run Cfg.repaired (St.init 4 [3]) witnessEarlyReturn).sess 0).pubs = [] := by decide
+
+/-- A publisher created before the session joins (it holds every permission until the backend says
+otherwise), then a join reply granting `publish-audio` only. -/
+def witnessJoinReply : List Act :=
+  [.offer 0 "video" [.audio, .video], .join 0 1 (some ["publish-audio"]), .sweep 0]
+
+/-- On the pinned tree the audio + video publisher stays although the room grants audio only … -/
+theorem C08_join_without_sweep_leaves_publisher :
+    ((run Cfg.pinned (St.init 4 [3]) witnessJoinReply).sess 0).sweeps = 0 ∧
+    ((run Cfg.pinned (St.init 4 [3]) witnessJoinReply).sess 0).pubs = [{ stream := "video", media := { audio := true, video := true } }] ∧
+    Permitted Cfg.pinned (some ["publish-audio"]) "video" { audio := true, video := true } = false := by decide
+
+/-- … on the repaired one it is closed. -/
+example : ((run Cfg.repaired (St.init 4 [3]) witnessJoinReply).sess 0).pubs = [] := by decide
+
+/-! Non-vacuity of the general theorems (hypotheses met by concrete, non-trivial states). -/
+
+/-- `C08_publish_needs_permission`: a publisher is created, updated, gets a candidate, is announced by `sendoffer`. -/
+example :
+    let hist : List Act := [.join 0 1 (some ["publish-audio", "publish-screen"]), .join 1 1 (some [])]
+    Ev.pubNew 0 "video" { audio := true } ∈ (step Cfg.repaired (run Cfg.repaired (St.init 4 [3]) hist) (.offer 0 "video" [.audio, .other])).2 ∧
+    lastSet hist 0 = some ["publish-audio", "publish-screen"] ∧
+    Ev.pubSet 0 "video" {} ∈
+      (step Cfg.repaired (run Cfg.repaired (St.init 4 [3]) (hist ++ [.offer 0 "video" [.audio]])) (.offer 0 "video" [])).2 ∧
+    Ev.pubMsg 0 "video" .candidate ∈
+      (step Cfg.repaired (run Cfg.repaired (St.init 4 [3]) (hist ++ [.offer 0 "video" [.audio]])) (.msg 0 0 .candidate "video")).2 ∧
+    Ev.sendofferOk 0 1 "video" ∈
+      (step Cfg.repaired (run Cfg.repaired (St.init 4 [3]) (hist ++ [.offer 0 "video" [.audio]])) (.sendoffer 0 1 "video")).2 := by
+  decide
+
+/-- … and the refusals are real: video without `publish-video`, a candidate for a screen share without `publish-screen`. -/
+example :
+    let st := run Cfg.repaired (St.init 4 [3]) [.join 0 1 (some ["publish-audio"])]
+    step Cfg.repaired st (.offer 0 "video" [.audio, .video]) = (st, [.reply 0 "not_allowed"]) ∧
+    step Cfg.repaired st (.msg 0 0 .candidate "screen") = (st, [.reply 0 "not_allowed"]) :=
+  ⟨C08_offer_refused _ repaired_sound _ _ _ _ (by decide) (by decide),
+   C08_candidate_refused _ repaired_sound _ _ _ _ (by decide) (by decide) (by decide)⟩
+
+/-- `C08_revocation_closes` / `C08_update_then_sweep`: a reachable state with both publishers, a live session. -/
+example :
+    let st := run Cfg.repaired (St.init 4 [3])
+      [.join 0 1 (some allPublish), .sweep 0, .offer 0 "video" [.audio, .video], .offer 0 "screen" [.video]]
+    Reachable Cfg.repaired st ∧ (st.sess 0).live = true ∧ (st.sess 0).sweeps = 0 ∧ (st.sess 0).pubs.length = 2 :=
+  ⟨⟨4, [3], _, rfl⟩, by decide, by decide, by decide⟩
+
+/-- `C08_subscribe_same_call`: accepted in the same call, refused when the publisher is not in the call. -/
+example :
+    let hist : List Act := [.join 0 1 none, .join 1 1 none, .offer 0 "video" [.audio], .incall 1 1 true]
+    Ev.requestOk 1 0 "video" ∈
+      (step Cfg.repaired (run Cfg.repaired (St.init 4 [3]) (hist ++ [.incall 0 1 true])) (.request 1 0 "video")).2 ∧
+    (step Cfg.repaired (run Cfg.repaired (St.init 4 [3]) hist) (.request 1 0 "video")).2 = [.reply 1 "not_allowed"] ∧
+    -- an internal client may subscribe without being in a call
+    Ev.requestOk 3 0 "video" ∈ (step Cfg.repaired (run Cfg.repaired (St.init 4 [3]) hist) (.request 3 0 "video")).2 := by
+  decide
+
+/-- `C08_control_transient_gates`: delivered / stored with the permission, dropped / refused without. -/
+example :
+    let st := run Cfg.repaired (St.init 4 [3]) [.join 0 1 (some ["control", "transient-data"]), .join 1 1 (some [])]
+    Ev.deliver 1 "ctl" 0 ∈ (step Cfg.repaired st (.control 0 .room)).2 ∧
+    Ev.tev 1 "tset.k.v" 0 ∈ (step Cfg.repaired st (.transient 0 (.set "k" "v"))).2 ∧
+    (step Cfg.repaired st (.control 1 .room)).2 = [] ∧
+    (step Cfg.repaired st (.transient 1 (.set "k" "v"))).2 = [.reply 1 "not_allowed"] := by
+  decide
 
 end SigModel.Perm
